@@ -77,7 +77,10 @@ Record inputs := {
   i_supply : list T;                 (* as passed: negative = drawn from the grid *)
   i_prices_commodity : option (list T); i_prices_procurement : option (list T);
   i_fix : list T; i_gen : option (list T); i_v2g : option (list T); i_bat : option (list T);
-  i_window : option (list bool); i_schedule : option (list T); i_pv_nominal : T }.
+  i_window : option (list bool); i_schedule : option (list T); i_pv_nominal : T;
+  (* computed by the code in pure float arithmetic from price-sheet numbers: value_added_tax/100 and
+     additional_costs*fraction_year enter with the double's value *)
+  i_vat : T; i_add_sim : T }.
 
 Record outputs := {
   o_fee : fee; o_commodity_py : T; o_commodity_sim : T; o_capacity : T;
@@ -111,7 +114,7 @@ Definition finalize (sh:sheet) (inp:inputs) (energy_sim max_supply:T) (peak_out:
                     (com_py com_sim cap:T) (fee2:fee) (proc_var:option T) : res outputs :=
   let secs := i_secs inp in let fy := i_fy inp in
   let add_py := match fee2 with RLM => additional sh | SLP => zero end in
-  let add_sim := add_py * fy in
+  let add_sim := match fee2 with RLM => i_add_sim inp | SLP => zero end in
   let per100 (rate:T) : res T := ndiv (rate * energy_sim) c100 in
   let! proc_sim := match proc_var with Some p => Ok p | None => per100 (procurement sh) end in
   let! proc_py := ndiv proc_sim fy in
@@ -131,7 +134,7 @@ Definition finalize (sh:sheet) (inp:inputs) (energy_sim max_supply:T) (peak_out:
   let! (v2g_py, v2g_sim) := feed_in (v2g_rem sh) (i_v2g inp) secs fy in
   let! (bat_py, bat_sim) := feed_in (bat_rem sh) (i_bat inp) secs fy in
   let! tax_sim := per100 (etax sh) in let! tax_py := ndiv tax_sim fy in
-  let! vat := ndiv (vat_percent sh) c100 in
+  let vat := i_vat inp in
   let net_sim := com_sim + cap + proc_sim + add_sim + lev_total_sim + con_sim + tax_sim in
   let! net_py0 := ndiv (net_sim - cap) fy in
   let net_py := net_py0 + cap in
